@@ -106,4 +106,22 @@ def aloneReq (c : ICfg) (sortK : List Tag → List Tag) (H : String → Nat) : L
     | .fatal => [.fatal]
     | r => r :: aloneReq c sortK H rest
 
+/-! ## the timestamp of a line: request precision → milliseconds -/
+
+/-- getPrecisionMultiplier (on the lower-cased parameter) as a table; anything else: 0 -/
+def precisionTable : List (String × Int) :=
+  [("ns", -1000000), ("us", -1000), ("ms", 1), ("s", 1000), ("m", 60000), ("h", 3600000), ("default", 0)]
+
+def multiplierOf (tbl : List (String × Int)) (p : String) : Int :=
+  match tbl.lookup p with
+  | some m => if p = "default" then 0 else m
+  | none => 0
+
+/-- parseTimestamp once strconv.ParseInt gave `f`: `none` = multiplier 0, the precision is guessed from
+the clock (timestamp2MilliSeconds, not modelled); Go's `/` truncates toward zero -/
+def toMillis (mult : Int) (f : Int) : Option Int :=
+  if mult = 0 then none
+  else if mult > 0 then some (f * mult)
+  else some (Int.tdiv (-1 * f) mult)
+
 end LinVerif.InfluxStream
